@@ -95,6 +95,11 @@ CHECKS["C04"] = dict(engine="Enroll", design="§4 C04",
     note="Trusted: Go crypto/x509/tls, TLC. The enrolment runs through the public functions; only the final dial goes over loopback.",
     technique="TLA+ spec (Enroll.tla) + TLC exhaustive incl. liveness + full configuration-product replay + TLC trace validation")
 
+CHECKS["C07"] = dict(engine="Handshake", design="§4 C07",
+    text="The node side of Handshake.tla: pending (created, unauthorised) / registered nodes, dials to the own server and to eight kinds of rogue peer; TLC-generated histories (new node, dial before authorisation -> ErrNotAuthorized with stored credentials unchanged, authorise, dial with the same key; rogues with foreign roots, stale nonce, no nonce, wrong EKU, self-signed, not-yet-valid next root, foreign without / with an application ALPN) run with the real protocol.Dial over tcp and unix sockets, with storage wrappers, extra ALPN and state; fixed real-time histories with 8 s roots rotate the server once the node's second chain is valid and dial 18 times (this is also the end-to-end half of C09). Every outcome is judged by HandshakeTrace.tla.",
+    note=HS_NOTE + " Rogue peers are harness-built crypto/tls servers that hold the server's storage (so they can mint from the real roots where the case calls for it).",
+    technique="TLA+ spec (Handshake.tla node side) + TLC-generated histories + rogue-server replay + real-time rotation histories + TLC trace validation")
+
 PENDING = {}
 for i in range(1, 21):
     pid = "C%02d" % i
